@@ -273,6 +273,57 @@ fn geo_to_shape(case: &str, variant: usize, i: usize, ctx: &Ctx, rep: &mut Repor
     let want = model_of(&geom, true).expect("harness: model");
     rep.nontrivial(&format!("g2s:{}:{:?}", variant, want));
     let input_json = J::s(format!("{:?}", geom));
+    // the concrete conversions into the measured and Z types and back (Shape::try_from only
+    // ever builds the 2-D types)
+    let via_mz = panicmon::catch(|| -> Vec<(&'static str, Option<g::Geometry<f64>>)> {
+        match geom.clone() {
+            g::Geometry::Point(p) => vec![
+                ("PointM", Some(g::Geometry::Point(g::Point::from(PointM::from(p))))),
+                ("PointZ", Some(g::Geometry::Point(g::Point::from(PointZ::from(p))))),
+            ],
+            g::Geometry::MultiPoint(mp) => vec![
+                ("MultipointM", Some(g::Geometry::MultiPoint(g::MultiPoint::from(MultipointM::from(mp.clone()))))),
+                ("MultipointZ", Some(g::Geometry::MultiPoint(g::MultiPoint::from(MultipointZ::from(mp))))),
+            ],
+            g::Geometry::Line(l) => vec![
+                ("PolylineM", Some(g::Geometry::MultiLineString(g::MultiLineString::from(PolylineM::from(l))))),
+                ("PolylineZ", Some(g::Geometry::MultiLineString(g::MultiLineString::from(PolylineZ::from(l))))),
+            ],
+            g::Geometry::LineString(l) => vec![
+                ("PolylineM", Some(g::Geometry::MultiLineString(g::MultiLineString::from(PolylineM::from(l.clone()))))),
+                ("PolylineZ", Some(g::Geometry::MultiLineString(g::MultiLineString::from(PolylineZ::from(l))))),
+            ],
+            g::Geometry::MultiLineString(ml) => vec![
+                ("PolylineM", Some(g::Geometry::MultiLineString(g::MultiLineString::from(PolylineM::from(ml.clone()))))),
+                ("PolylineZ", Some(g::Geometry::MultiLineString(g::MultiLineString::from(PolylineZ::from(ml))))),
+            ],
+            g::Geometry::Polygon(p) => vec![
+                ("PolygonM", Some(g::Geometry::MultiPolygon(g::MultiPolygon::from(PolygonM::from(p.clone()))))),
+                ("PolygonZ", Some(g::Geometry::MultiPolygon(g::MultiPolygon::from(PolygonZ::from(p))))),
+            ],
+            g::Geometry::MultiPolygon(mp) => vec![
+                ("PolygonM", Some(g::Geometry::MultiPolygon(g::MultiPolygon::from(PolygonM::from(mp.clone()))))),
+                ("PolygonZ", Some(g::Geometry::MultiPolygon(g::MultiPolygon::from(PolygonZ::from(mp))))),
+            ],
+            _ => vec![],
+        }
+    });
+    match via_mz {
+        Err(p) => rep.violation(&format!("geo->shape(M/Z)->geo/{}/panic", name), case, J::obj(vec![("input", input_json.clone()), ("panic", J::s(p.class()))])),
+        Ok(list) => {
+            for (target, back) in list {
+                rep.count("geo_shapeMZ_geo_round_trips", 1);
+                let got = back.as_ref().and_then(|b| model_of(b, true));
+                if got.as_ref() != Some(&want) {
+                    rep.violation(
+                        &format!("geo->shape(M/Z)->geo/{}->{}/coordinates-or-grouping", name, target),
+                        case,
+                        J::obj(vec![("input", input_json.clone()), ("via", J::s(target)), ("back", J::s(format!("{:?}", back)))]),
+                    );
+                }
+            }
+        }
+    }
     let res = panicmon::catch(|| Shape::try_from(geom.clone()).and_then(g::Geometry::<f64>::try_from));
     match res {
         Err(p) => rep.violation(&format!("geo->shape->geo/{}/panic", name), case, J::obj(vec![("input", input_json), ("panic", J::s(p.class()))])),
